@@ -60,6 +60,27 @@ Definition view_or (a b : view) : view :=
      V_nodal_rows := V_nodal_rows a; V_facet_rows := V_facet_rows a; V_edge_rows := V_edge_rows a;
      V_interior_rows := V_interior_rows a |}.
 
+(* ---- Dofs._by_name / DofsView.nodal, .facet, .edge, .interior: dict name -> flattened DOFs of the selected rows that carry
+   that name (keys in the order of first appearance); row r of the block is named dofnames[r + off] *)
+Fixpoint dedup (l : list nat) : list nat :=
+  match l with
+  | [] => []
+  | x :: r => x :: filter (fun y => negb (y =? x)) (dedup r)
+  end.
+Definition by_name (blk : list (list nat)) (rows ix : list nat) (off : nat) (dofnames : list nat) : list (nat * list nat) :=
+  let nm := fun r => nth (r + off) dofnames 0 in
+  map (fun n => (n, flat_map (fun r => if nm r =? n then map (fun j => nth j (nth r blk []) 0) ix else []) rows))
+      (dedup (map nm rows)).
+(* offs : (facet, edge, interior) offsets of the DofsView properties (regenerated from the source) *)
+Definition view_by_name (D : dofs) (v : view) (dofnames : list nat) (offs : offsets) (kd : kind) : list (nat * list nat) :=
+  let '(of_, oe, oi) := offs in
+  match kd with
+  | Nodal => by_name (D_nodal D) (V_nodal_rows v) (V_nodal_ix v) 0 dofnames
+  | Facet => by_name (D_facet D) (V_facet_rows v) (V_facet_ix v) of_ dofnames
+  | Edge => by_name (D_edge D) (V_edge_rows v) (V_edge_ix v) oe dofnames
+  | Interior => by_name (D_interior D) (V_interior_rows v) (V_interior_ix v) oi dofnames
+  end.
+
 (* ---- the three queries.  nd ed fd : the element's counts; skip : names to skip *)
 Definition cols_of (T : list (list nat)) (ix : list nat) : list nat :=      (* T[:, ix].flatten() *)
   flat_map (fun row => map (fun j => nth j row 0) ix) T.
